@@ -101,6 +101,35 @@ Theorem C24_add_correspondence_sound :
   NoDup isum /\ forall s, In s isum <-> In s (states jumps nsites (N1 + N2) o1).
 Proof. exact run_add_sound. Qed.
 
+(* ONE object over any history of generate(N, flag) / += calls (state machine hstep; generate returns early only
+   when range AND flag are unchanged): its state list is
+   always duplicate free and exactly the set of a freshly built star set of its current range and
+   flag -- nothing of an earlier, larger range (or of switched-off origin states) survives.  The
+   model's look-up is sindex on that list, so C24_lookups_consistent applies to it after any history. *)
+Theorem C24_history_invariant :
+  forall jumps nsites N0 o0 h, (forall j, In j jumps -> iszero j = false) ->
+  let obj := hrun jumps nsites N0 o0 h in
+  NoDup (ost obj) /\ forall s, In s (ost obj) <-> In s (states jumps nsites (oN obj) (oo obj)).
+Proof. exact hist_invariant. Qed.
+
+(* the LAST generate request decides: whatever the history, after generate(N, o) the object has range N, flag o and
+   exactly the states of a fresh star set of that range and flag (a changed flag at unchanged range is not ignored) *)
+Theorem C24_history_last_request :
+  forall jumps nsites N0 o0 h N o, (forall j, In j jumps -> iszero j = false) ->
+  let obj := hrun jumps nsites N0 o0 (h ++ [HGen N o]) in
+  oN obj = N /\ oo obj = o /\ NoDup (ost obj) /\ forall s, In s (ost obj) <-> In s (states jumps nsites N o).
+Proof. exact hist_last_request. Qed.
+
+(* result 0 of the history runner (implementation object driven through the same history): it agrees
+   with the state machine and passes the fresh-object runner for the machine's current range/flag *)
+Theorem C24_history_correspondence_sound :
+  forall jumps nsites N0 o0 h ops ists istars iindex qs,
+  run_hist jumps nsites N0 o0 h ops ists istars iindex qs = 0 ->
+  let obj := hrun jumps nsites N0 o0 h in
+  (forall s, In s ists <-> In s (ost obj)) /\
+  run_starset jumps nsites (oN obj) (oo obj) ops ists istars iindex qs = 0.
+Proof. exact run_hist_sound. Qed.
+
 Goal True. idtac "ASSUMPTIONS-OF C24_states_eq_reachable". Abort.
 Print Assumptions C24_states_eq_reachable.
 Goal True. idtac "ASSUMPTIONS-OF C24_states_nodup". Abort.
@@ -121,3 +150,9 @@ Goal True. idtac "ASSUMPTIONS-OF C24_correspondence_sound". Abort.
 Print Assumptions C24_correspondence_sound.
 Goal True. idtac "ASSUMPTIONS-OF C24_add_correspondence_sound". Abort.
 Print Assumptions C24_add_correspondence_sound.
+Goal True. idtac "ASSUMPTIONS-OF C24_history_invariant". Abort.
+Print Assumptions C24_history_invariant.
+Goal True. idtac "ASSUMPTIONS-OF C24_history_correspondence_sound". Abort.
+Print Assumptions C24_history_correspondence_sound.
+Goal True. idtac "ASSUMPTIONS-OF C24_history_last_request". Abort.
+Print Assumptions C24_history_last_request.
